@@ -499,7 +499,9 @@ impl Spaces {
     }
 
     pub fn names(&self) -> Vec<&'static str> {
-        vec!["nesting", "soups", "macros", "defines", "extremes", "names", "degenerate", "pipelines", "literal_forms", "bytes2", "bytes_cls", "tokens", "tokens_cls", "directives", "mutants", "mutants_repo"]
+        // the two spaces whose cases run into the per-case CPU limit by design (deep nesting, scaling families) go last: when
+        // the machine is loaded they used to consume the whole wall budget before the large cheap spaces had run at all
+        vec!["macros", "defines", "extremes", "names", "degenerate", "pipelines", "literal_forms", "bytes2", "bytes_cls", "tokens", "tokens_cls", "directives", "mutants", "mutants_repo", "nesting", "soups"]
     }
 
     pub fn len(&self, space: &str) -> u64 {
